@@ -439,6 +439,14 @@ func VerifC13_lengths() {
 	ks := []int{1, 2, 19, 7, 10, 20}
 	k := ks[verifChoose(verifParam("n_digit_counts", 4))]
 	ds := verifNondetBytes(k)
+	if k > 10 {
+		// 19/20-digit lengths (2^62..2^63 and beyond, where doubling and the decimal
+		// accumulation wrap): the two leading digits are symbolic, the rest is all 0 or all 9
+		fill := []byte{'0', '9'}[verifChoose(2)]
+		for i := 2; i < k; i++ {
+			ds[i] = fill
+		}
+	}
 	var v int64
 	for _, d := range ds {
 		verifAssume(d >= '0' && d <= '9')
